@@ -6,7 +6,9 @@ package main
 import (
 	"fmt"
 	"go/ast"
+	"go/printer"
 	"go/token"
+	"strings"
 
 	"golang.org/x/tools/go/ssa"
 )
@@ -20,6 +22,26 @@ func (f *Frame) specEnv(st *State, phiVal func(*ssa.Phi) Val, phis []*ssa.Phi) *
 	for i, p := range f.fn.Params {
 		env.vars[p.Name()] = f.params[i]
 	}
+	// address-taken locals (Alloc) by source name, when the name is unique and already allocated
+	seen := map[string]int{}
+	for _, b := range f.fn.Blocks {
+		for _, ins := range b.Instrs {
+			if a, ok := ins.(*ssa.Alloc); ok && a.Comment != "" {
+				seen[a.Comment]++
+			}
+		}
+	}
+	for _, b := range f.fn.Blocks {
+		for _, ins := range b.Instrs {
+			if a, ok := ins.(*ssa.Alloc); ok && a.Comment != "" && seen[a.Comment] == 1 {
+				if v, done := f.vals[a]; done {
+					if _, shadow := env.vars[a.Comment]; !shadow {
+						env.vars[a.Comment] = v
+					}
+				}
+			}
+		}
+	}
 	// loop-carried locals by source name
 	for _, p := range phis {
 		if p.Comment != "" && phiVal != nil {
@@ -31,6 +53,104 @@ func (f *Frame) specEnv(st *State, phiVal func(*ssa.Phi) Val, phis []*ssa.Phi) *
 	return env
 }
 
+// split a clause into its top-level conjuncts (through parentheses and implications)
+func conjuncts(e ast.Expr) []ast.Expr {
+	switch x := e.(type) {
+	case *ast.ParenExpr:
+		return conjuncts(x.X)
+	case *ast.BinaryExpr:
+		if x.Op == token.LAND {
+			return append(conjuncts(x.X), conjuncts(x.Y)...)
+		}
+	case *ast.CallExpr:
+		if id, ok := x.Fun.(*ast.Ident); ok && id.Name == "imp" && len(x.Args) == 2 {
+			var out []ast.Expr
+			for _, c := range conjuncts(x.Args[1]) {
+				out = append(out, &ast.CallExpr{Fun: x.Fun, Args: []ast.Expr{x.Args[0], c}})
+			}
+			return out
+		}
+		// spec function whose body is a conjunction: split it too (parameters substituted)
+		if id, ok := x.Fun.(*ast.Ident); ok && specFuncsForSplit != nil {
+			if sf := specFuncsForSplit[id.Name]; sf != nil && len(sf.Params) == len(x.Args) && !mentionsOld(x) {
+				sub := map[string]ast.Expr{}
+				for i, p := range sf.Params {
+					sub[p] = x.Args[i]
+				}
+				body := substExpr(sf.Body, sub)
+				if parts := conjuncts(body); len(parts) > 1 {
+					return parts
+				}
+			}
+		}
+	}
+	return []ast.Expr{e}
+}
+
+var specFuncsForSplit map[string]*SpecFunc
+
+func mentionsOld(e ast.Expr) bool {
+	found := false
+	ast.Inspect(e, func(n ast.Node) bool {
+		if id, ok := n.(*ast.Ident); ok && id.Name == "old" {
+			found = true
+		}
+		return true
+	})
+	return found
+}
+
+// copy of e with identifiers replaced (used to expand spec functions syntactically)
+func substExpr(e ast.Expr, sub map[string]ast.Expr) ast.Expr {
+	switch x := e.(type) {
+	case *ast.Ident:
+		if r, ok := sub[x.Name]; ok {
+			return &ast.ParenExpr{X: r}
+		}
+		return x
+	case *ast.ParenExpr:
+		return &ast.ParenExpr{X: substExpr(x.X, sub)}
+	case *ast.BinaryExpr:
+		return &ast.BinaryExpr{X: substExpr(x.X, sub), Op: x.Op, Y: substExpr(x.Y, sub)}
+	case *ast.UnaryExpr:
+		return &ast.UnaryExpr{Op: x.Op, X: substExpr(x.X, sub)}
+	case *ast.SelectorExpr:
+		return &ast.SelectorExpr{X: substExpr(x.X, sub), Sel: x.Sel}
+	case *ast.IndexExpr:
+		return &ast.IndexExpr{X: substExpr(x.X, sub), Index: substExpr(x.Index, sub)}
+	case *ast.SliceExpr:
+		n := &ast.SliceExpr{X: substExpr(x.X, sub)}
+		if x.Low != nil {
+			n.Low = substExpr(x.Low, sub)
+		}
+		if x.High != nil {
+			n.High = substExpr(x.High, sub)
+		}
+		return n
+	case *ast.CallExpr:
+		n := &ast.CallExpr{Fun: x.Fun}
+		if _, isSel := x.Fun.(*ast.SelectorExpr); isSel {
+			n.Fun = substExpr(x.Fun, sub)
+		}
+		for i, a := range x.Args {
+			// bound variable of forall/exists shadows
+			if id, ok := x.Fun.(*ast.Ident); ok && (id.Name == "forall" || id.Name == "exists") && i == 0 {
+				n.Args = append(n.Args, a)
+				continue
+			}
+			n.Args = append(n.Args, substExpr(a, sub))
+		}
+		return n
+	}
+	return e
+}
+
+func exprText(e ast.Expr) string {
+	var b strings.Builder
+	printer.Fprint(&b, token.NewFileSet(), e)
+	return b.String()
+}
+
 func (f *Frame) checkInvariants(li *loopInfo, kind string, phiVal func(*ssa.Phi) Val, phis []*ssa.Phi, st *State) {
 	vc := f.vc
 	if !f.top || vc.contract == nil {
@@ -38,8 +158,10 @@ func (f *Frame) checkInvariants(li *loopInfo, kind string, phiVal func(*ssa.Phi)
 	}
 	env := f.specEnv(st, phiVal, phis)
 	for ci, c := range vc.contract.LoopInv[li.ordinal] {
-		g := env.evalBool(c.Expr)
-		f.oblige(fmt.Sprintf("%s:%d.%d", kind, li.ordinal, ci), g, fmt.Sprintf("loop %d invariant %s", li.ordinal, c.Text), li.header.Instrs[0].Pos(), c.Tags, true)
+		for ji, cj := range conjuncts(c.Expr) {
+			g := env.evalBool(cj)
+			f.oblige(fmt.Sprintf("%s:%d.%d.%d", kind, li.ordinal, ci, ji), g, fmt.Sprintf("loop %d invariant %s", li.ordinal, exprText(cj)), li.header.Instrs[0].Pos(), c.Tags, true)
+		}
 	}
 }
 
@@ -120,7 +242,9 @@ func (f *Frame) checkPost(vs []Val, pos token.Pos) {
 		}
 	}
 	for ci, c := range vc.contract.Ensures {
-		g := env.evalBool(c.Expr)
-		f.oblige(fmt.Sprintf("post:%d", ci), g, "ensures "+c.Text, pos, c.Tags, true)
+		for ji, cj := range conjuncts(c.Expr) {
+			g := env.evalBool(cj)
+			f.oblige(fmt.Sprintf("post:%d.%d", ci, ji), g, "ensures "+exprText(cj), pos, c.Tags, true)
+		}
 	}
 }
